@@ -166,6 +166,17 @@ struct Ctx
   // per op: number of fault sites seen per kind (for single-fault enumeration)
   std::vector<std::array<long, fault::KINDS>> op_sites;
   bool nontrivial = false;
+  std::vector<std::uint64_t> states; // hashes of the model states this run passed through
+  void state(std::string const &repr)
+  {
+    std::uint64_t h = 1469598103934665603ULL;
+    for (unsigned char c : repr)
+    {
+      h ^= c;
+      h *= 1099511628211ULL;
+    }
+    states.push_back(h);
+  }
   std::vector<unsigned> sched_out; // scheduler choices actually made (concurrent engine)
   std::uint64_t interleaving = 0;  // hash of the sequence of synchronisation events
 
